@@ -94,6 +94,10 @@ class HoloPyObject(Serializable):
         value = []
         # heavily inspired by the source of PyYAML's represent_mapping
         node = yaml.nodes.MappingNode(tag, value)
+        # (as represent_mapping does: an object met again is written as an
+        # alias of its first occurrence, so that shared priors stay shared)
+        if dumper.alias_key is not None:
+            dumper.represented_objects[dumper.alias_key] = node
         for key, item in data._iteritems():
             node_key = dumper.represent_data(key)
             node_value = dumper.represent_data(item)
